@@ -115,18 +115,19 @@ Section Rodrigues.
     Definition rod_inv_theta (p : mat3 F) : F := nacos O (rod_inv_c p).
 
     (* half-turn branch: axis from the diagonal with the three sign fix-ups.
-       (fixed code: sqrt(clip((diag+1)/2, 0, inf)); fixes/C10-halfturn-sqrt-clip.diff) *)
+       (fixed code: sqrt(clip((diag+1)/2, 0, inf)), fixes/C10-halfturn-sqrt-clip.diff; signs tested on the symmetric
+       part r[i,j] + r[j,i] = 2(1-c) k_i k_j, fixes/C10-halfturn-sign-from-symmetric-part.diff) *)
     Definition rod_diag_root (d : F) : F := nsqrt O (nmax O ((d + 1) * rod_half) 0).
     Definition rod_half_axis (p : mat3 F) : vec3 F :=
       let rx := rod_diag_root (a00 p) in
       let ry0 := rod_diag_root (a11 p) in
       let rz0 := rod_diag_root (a22 p) in
-      let ry := if nltb O (a01 p) 0 then - ry0 else ry0 in
-      let rz1 := if nltb O (a02 p) 0 then - rz0 else rz0 in
+      let ry := if nltb O (a01 p + a10 p) 0 then - ry0 else ry0 in
+      let rz1 := if nltb O (a02 p + a20 p) 0 then - rz0 else rz0 in
       let rz :=
         if andb (nltb O (nabs O rx) (nabs O ry))
              (andb (nltb O (nabs O rx) (nabs O rz1))
-                   (negb (Bool.eqb (nltb O 0 (a12 p)) (nltb O 0 (ry * rz1)))))
+                   (negb (Bool.eqb (nltb O 0 (a12 p + a21 p)) (nltb O 0 (ry * rz1)))))
         then - rz1 else rz1 in
       V3 rx ry rz.
 
